@@ -195,30 +195,38 @@ def header_problems(disp, suggested, ext):
     return out
 
 
-def expected_status(wq, writer):
+def expected_status(m, writer):
+    """what the status must say, from the REFERENCE MODEL of the queue run over the trace (first of finish/kill/timeout
+    wins, info updates, jobs forgotten by the watchdog) - not from the implementation's job objects"""
     from mwlib.core import nserve
-    j = wq.id2job.get(jobid(writer))
-    mz = wq.id2job.get(jobid("mz"))
+
+    def job(key):
+        jid = jobid(key)
+        if jid in m.dropped:
+            return None
+        return m.jobs.get(jid)
+
+    j, mz = job(writer), job("mz")
 
     def mzinfo():
         if mz is None:
             return {}
-        if mz.done:
+        if mz["done"]:
             return {"status": MZ_DONE_TEXT}
-        return dict(mz.info)
+        return dict(mz.get("info", {}))
 
     if j is None:
         return {"state": "progress", "status": mzinfo()}
-    if j.done and j.error:
-        return {"state": "failed", "error": j.error}
-    if j.done:
-        e = {"state": "finished", "content_type": nserve.name2writer[writer].content_type}
-        if j.result:
-            if "url" in j.result and "size" in j.result:
-                e["url"] = j.result["url"]
-                e["content_length"] = j.result["size"]
+    if j["done"] and j["error"]:
+        return {"state": "failed", "error": j["error"]}
+    if j["done"]:
+        e = {"state": "finished", "content_type": nserve.name2writer[writer].content_type, "_result": j["result"]}
+        if j["result"]:
+            if "url" in j["result"] and "size" in j["result"]:
+                e["url"] = j["result"]["url"]
+                e["content_length"] = j["result"]["size"]
         return e
-    return {"state": "progress", "status": dict(j.info) if j.info else mzinfo()}
+    return {"state": "progress", "status": dict(j.get("info", {})) if j.get("info") else mzinfo()}
 
 
 def judge(w, cfg):
@@ -230,7 +238,8 @@ def judge(w, cfg):
     for e in w.hub.errors:
         viol.append(("C19", "server-greenlet-error:" + e[1], "unhandled exception in a server greenlet: %r" % (e,), None))
     # expectations are computed from the real job objects BEFORE the status calls (which are read-only RPCs)
-    exp = {wr: expected_status(wq, wr) for wr in WRITERS}
+    model = X.run_model(w)
+    exp = {wr: expected_status(model, wr) for wr in WRITERS}
     seen = {}
     for wr in WRITERS:
         try:
@@ -254,8 +263,8 @@ def judge(w, cfg):
             for k in ("url", "content_length", "content_type"):
                 if k in e and r.get(k) != e[k]:
                     viol.append(("C19", "finished-" + k, "writer %s reported %s=%r, job result says %r" % (wr, k, r.get(k), e[k]), None))
-            j = wq.id2job.get(jobid(wr))
-            sugg = (j.result or {}).get("suggested_filename", "") if isinstance(j.result, dict) and "url" in j.result and "size" in j.result else ""
+            res = e.get("_result")
+            sugg = res.get("suggested_filename", "") if isinstance(res, dict) and "url" in res and "size" in res else ""
             disp = r.get("content_disposition")
             if not isinstance(disp, str):
                 viol.append(("C19", "finished-disposition", "no content_disposition in %r" % (r,), None))
